@@ -1,6 +1,7 @@
 import Pycoin.Driver.Core
 import Pycoin.DriverLib.TxText
 import Pycoin.Model.Message
+import Pycoin.Model.P2PObjects
 /-!
 Line protocol for p2p messages (see harness/msglib.py for the value syntax):
 `msg_rt <name> <fields> [tag]` packs then parses; `msg_parse <name> <hex>` parses.
@@ -116,6 +117,70 @@ def layoutFieldCount (name : List Char) : Nat :=
 
 def hexOrDash (b : Bytes) : String := if b.isEmpty then "-" else encodeHexFast b
 
+
+/-! ### helper objects as objects -/
+open Pycoin.P2P in
+def flags6 (lt eq : Bool) : String :=
+  String.ofList ([eq, !eq, lt, leOf lt eq, gtOf lt eq, geOf lt].map fun b => if b then '1' else '0')
+
+open Pycoin.P2P in
+def paAnswer (a : PeerAddress) (st : List String) : Option (String × PeerAddress) :=
+  match st with
+  | ["host"] => some (String.ofList a.host, a)
+  | ["bin"] => some ((match Msg.peerAddressSer (.addr a.services a.ip a.port) with | .ok b => hexOrDash b | .error e => "err:" ++ e.tag), a)
+  | ["set", "services", v] => do some ("-", { a with services := ← parseInt? v })
+  | ["set", "port", v] => do some ("-", { a with port := ← parseInt? v })
+  | ["set", "ip", v] => do some ("-", { a with ip := ← parseHex? v })
+  | ["cmp", s, ip, p] => do
+    let b ← PeerAddress.new (← parseInt? s) (← parseHex? ip) (← parseInt? p)
+    some (flags6 (a.lt b) (a.eq b), a)
+  | _ => none
+
+open Pycoin.P2P in
+def invAnswer (a : InvItem) (st : List String) : Option (String × InvItem) :=
+  match st with
+  | ["bin"] => some ((match Msg.invItemSer (.inv a.itemType a.data) with | .ok b => hexOrDash b | .error e => "err:" ++ e.tag), a)
+  | ["set", "type", v] => do some ("-", { a with itemType := ← parseInt? v })
+  | ["set", "data", v] => do some ("-", { a with data := ← parseHex? v })
+  | ["cmp", t, d] => do
+    let b ← InvItem.new (← parseInt? t) (← parseHex? d) true
+    some (flags6 (a.lt b) (a.eq b) ++ toString (setSize (a.eq b)), a)
+  | _ => none
+
+def runObj {α : Type} (f : α → List String → Option (String × α)) : α → List String → Option (List String)
+  | _, [] => some []
+  | a, st :: sts => do
+    let (ans, a') ← f a (st.splitOn ":")
+    let rest ← runObj f a' sts
+    some (ans :: rest)
+
+open Pycoin.P2P in
+def handleObj : Handler := fun op args =>
+  match op, args with
+  | "pa_new", [s, ip, p] => do
+    match PeerAddress.new (← parseInt? s) (← parseHex? ip) (← parseInt? p) with
+    | none => some "err AssertionError"
+    | some a => some s!"ok {a.services} {hx a.ip} {a.port} {String.ofList a.host}"
+  | "pa_cmp", [s1, ip1, p1, s2, ip2, p2] => do
+    let a ← PeerAddress.new (← parseInt? s1) (← parseHex? ip1) (← parseInt? p1)
+    let b ← PeerAddress.new (← parseInt? s2) (← parseHex? ip2) (← parseInt? p2)
+    some ("ok " ++ flags6 (a.lt b) (a.eq b) ++ " 0")
+  | "pa_hist", [s, ip, p, steps] => do
+    let a ← PeerAddress.new (← parseInt? s) (← parseHex? ip) (← parseInt? p)
+    some ("ok " ++ "|".intercalate (← runObj paAnswer a (steps.splitOn ",")))
+  | "inv_new", [t, d, dc] => do
+    match InvItem.new (← parseInt? t) (← parseHex? d) (dc = "1") with
+    | none => some "err AssertionError"
+    | some a => some s!"ok {a.itemType} {hx a.data}"
+  | "inv_cmp", [t1, d1, t2, d2] => do
+    let a ← InvItem.new (← parseInt? t1) (← parseHex? d1) true
+    let b ← InvItem.new (← parseInt? t2) (← parseHex? d2) true
+    some ("ok " ++ flags6 (a.lt b) (a.eq b) ++ " " ++ toString (setSize (a.eq b)) ++ " 1 0")
+  | "inv_hist", [t, d, steps] => do
+    let a ← InvItem.new (← parseInt? t) (← parseHex? d) true
+    some ("ok " ++ "|".intercalate (← runObj invAnswer a (steps.splitOn ",")))
+  | _, _ => none
+
 def handle : Handler := fun op args =>
   match op, args with
   | "msg_rt", name :: fields :: _tag =>
@@ -163,6 +228,6 @@ def handle : Handler := fun op args =>
            | .dict (.error e) => "err:" ++ e.tag) :: zip cs as
         | (some _, _) :: _, [] => []
       some ("ok " ++ "|".intercalate (zip calls answers))
-  | _, _ => none
+  | _, _ => handleObj op args
 
 end Pycoin.Driver.C16
